@@ -276,7 +276,7 @@ int main(int argc, char **argv) {
       return;
     }
     // C07 / C08: (a) all 256 masks x N 1..3 with defaults (DIM <= 2 in quick)
-    if (D <= 2 || th) for (int N = 1; N <= 3; ++N) for (unsigned m = 0; m < 256; ++m) { Cfg g; g.mask = m; g.N = N; unit_do(g); }
+    if (D <= 2 || th) for (int N = 1; N <= (th ? 4 : 3); ++N) for (unsigned m = 0; m < 256; ++m) { Cfg g; g.mask = m; g.N = N; unit_do(g); }
     // (b) every remaining axis swept with the others at default, for 4 representative masks
     for (int N = 1; N <= (th ? 6 : 5); ++N) for (unsigned m : {0u, 255u, 0x11u, 0x5au}) {
       for (int tm = 0; tm < 3; ++tm) for (int sm = 0; sm < 4; ++sm) { Cfg g; g.mask = m; g.N = N; g.tm = tm; g.sm = sm; unit_do(g); }
@@ -285,6 +285,6 @@ int main(int argc, char **argv) {
       if (th) for (int K : {7, 49, 64}) { Cfg g; g.mask = m; g.N = N; g.K = K; g.fmode = 9; g.rho = 0.0009765625; unit_do(g); }
     }
     // (c) thorough: full product of the configuration axes for N <= 3, DIM <= 2
-    if (th && D <= 2) for (int N = 1; N <= 3; ++N) for (unsigned m = 0; m < 256; ++m) for (int tm = 0; tm < 3; ++tm) for (int sm = 0; sm < 4; ++sm) for (int f : {8, 9, 10}) for (double rho : {0.0, 0.25}) for (int K : {1, 3}) { Cfg g; g.mask = m; g.N = N; g.tm = tm; g.sm = sm; g.fmode = f; g.rho = rho; g.K = K; unit_do(g); }
+    if (th && D <= 3) for (int N = 1; N <= 3; ++N) for (unsigned m = 0; m < 256; ++m) for (int tm = 0; tm < 3; ++tm) for (int sm = 0; sm < 4; ++sm) for (int f : {8, 9, 10}) for (double rho : {0.0, 0.25}) for (int K : {1, 3}) { Cfg g; g.mask = m; g.N = N; g.tm = tm; g.sm = sm; g.fmode = f; g.rho = rho; g.K = K; unit_do(g); }
   });
 }
